@@ -47,15 +47,24 @@ def run(cmd, cwd=None, timeout=None, env=None, mem_gb=None):
         def pre():
             lim = int(mem_gb * (1 << 30))
             resource.setrlimit(resource.RLIMIT_AS, (lim, lim))
+    # own session: on a timeout the whole process group is killed (cargo's child -- a test binary spinning in an
+    # endless loop of the code under test -- would otherwise survive its parent)
+    proc = subprocess.Popen(cmd, cwd=cwd, env=env or offline_env(), stdout=subprocess.PIPE, stderr=subprocess.PIPE,
+                            text=True, errors="replace", preexec_fn=pre, start_new_session=True)
     try:
-        p = subprocess.run(cmd, cwd=cwd, env=env or offline_env(), timeout=timeout,
-                           stdout=subprocess.PIPE, stderr=subprocess.PIPE, text=True,
-                           errors="replace", preexec_fn=pre)
-        return p.returncode, p.stdout, p.stderr, time.time() - t0
-    except subprocess.TimeoutExpired as e:
-        out = e.stdout.decode(errors="replace") if isinstance(e.stdout, bytes) else (e.stdout or "")
-        err = e.stderr.decode(errors="replace") if isinstance(e.stderr, bytes) else (e.stderr or "")
-        return -9, out, err, time.time() - t0
+        out, err = proc.communicate(timeout=timeout)
+        return proc.returncode, out, err, time.time() - t0
+    except subprocess.TimeoutExpired:
+        import signal
+        try:
+            os.killpg(proc.pid, signal.SIGKILL)
+        except OSError:
+            proc.kill()
+        try:
+            out, err = proc.communicate(timeout=30)
+        except Exception:
+            out, err = "", ""
+        return -9, out or "", err or "", time.time() - t0
 
 
 def snapshot(tag):
